@@ -69,6 +69,7 @@ class World:
         self.schedule = []           # names of the tasks chosen, in order
         self.choices = []            # per step: (chosen, [enabled names], current-was-enabled)
         self.record_trace = True
+        self.piped = []              # queues with a pipe capacity (a process holding undelivered items cannot exit)
         self.step_ops = {}           # scheduler step -> kind of the visible operation performed in it
 
     def fresh(self, prefix):
@@ -249,24 +250,49 @@ class SimRLock:
         self.release()
 
 
+PIPE_CAP = [0]       # 0 = unbounded; k = a multiprocessing.Queue's pipe holds k items (models results larger than the pipe buffer)
+
+
 class SimQueue:
-    def __init__(self, maxsize=0):
+    """Queue shim. With a pipe capacity (context / module-level multiprocessing.Queue only) it behaves like the real
+    thing: put() hands the item to the producer's feeder, which moves it into the pipe when there is room; the item
+    becomes visible to get() only then, and the producer process cannot exit while its feeder still holds items."""
+
+    def __init__(self, maxsize=0, piped=False):
         self.items = []
         self.maxsize = maxsize or 0
         self.name = W.fresh("q") if W else "q?"
+        self.pipe_cap = PIPE_CAP[0] if piped else 0
+        self.held = []               # (task, item) accepted by put() but still in the producer's feeder
+        if W is not None and self.pipe_cap:
+            W.piped.append(self)
+
+    def _pump(self):
+        while self.held and len(self.items) < self.pipe_cap:
+            self.items.append(self.held.pop(0)[1])
+
+    def holds_for(self, task):
+        return any(t is task for t, _ in self.held)
 
     def _full(self):
-        return self.maxsize > 0 and len(self.items) >= self.maxsize
+        return self.maxsize > 0 and len(self.items) + len(self.held) >= self.maxsize
+
+    def _add(self, x):
+        if self.pipe_cap:
+            self.held.append((W.cur, x))
+            self._pump()
+        else:
+            self.items.append(x)
 
     def put(self, x, block=True, timeout=None):
         if block and timeout is None:
-            vop("q.put", self, lambda: not self._full(), lambda: self.items.append(x), _tag(x))
+            vop("q.put", self, lambda: not self._full(), lambda: self._add(x), _tag(x))
             return
 
         def eff():
             if self._full():
                 return _q.Full
-            self.items.append(x)
+            self._add(x)
         r = vop("q.put_nb", self, _always, eff, _tag(x))
         if r is _q.Full:
             raise _q.Full()
@@ -274,14 +300,20 @@ class SimQueue:
     def put_nowait(self, x):
         self.put(x, block=False)
 
+    def _take(self):
+        x = self.items.pop(0)
+        if self.pipe_cap:
+            self._pump()
+        return x
+
     def get(self, block=True, timeout=None):
         if block and timeout is None:
-            return vop("q.get", self, lambda: len(self.items) > 0, lambda: self.items.pop(0))
+            return vop("q.get", self, lambda: len(self.items) > 0, self._take)
 
         def eff():
             if not self.items:
                 return _q.Empty
-            return self.items.pop(0)
+            return self._take()
         r = vop("q.get_nb", self, _always, eff)
         if r is _q.Empty:
             raise _q.Empty()
@@ -458,10 +490,10 @@ class SimContext:
         return SimManager()
 
     def Queue(self, maxsize=0):
-        return SimQueue(maxsize)
+        return SimQueue(maxsize, piped=True)
 
     def SimpleQueue(self):
-        return SimQueue(0)
+        return SimQueue(0, piped=True)
 
     def Lock(self):
         return SimLock()
@@ -484,6 +516,11 @@ class SimContext:
 
 
 CPU_COUNT = [2]
+
+
+def _holding(task):
+    w = W
+    return bool(w and any(q.holds_for(task) for q in w.piped))
 
 
 def fork_copy(obj):
@@ -522,7 +559,7 @@ class SimThread:
         if timeout is not None:
             vop("join_t", self, _always, lambda: None)
             return
-        vop("join", self, lambda: self._task is not None and self._task.done, lambda: None)
+        vop("join", self, lambda: self._task is not None and self._task.done and not _holding(self._task), lambda: None)
 
     def is_alive(self):
         return vop("is_alive", self, _always, lambda: self._task is not None and not self._task.done)
@@ -542,7 +579,7 @@ class SimProcess(SimThread):
     @property
     def exitcode(self):
         t = self._task
-        return vop("exitcode", self, _always, lambda: (None if t is None or not t.done else (1 if t.exc else 0)))
+        return vop("exitcode", self, _always, lambda: (None if t is None or not t.done or _holding(t) else (1 if t.exc else 0)))
 
     @property
     def pid(self):
@@ -574,8 +611,8 @@ def make_shims():
     mp.Process = SimProc
     mp.get_context = lambda *a: ctx
     mp.cpu_count = lambda: CPU_COUNT[0]
-    mp.Queue = SimQueue
-    mp.SimpleQueue = lambda: SimQueue(0)
+    mp.Queue = lambda maxsize=0: SimQueue(maxsize, piped=True)
+    mp.SimpleQueue = lambda: SimQueue(0, piped=True)
     mp.Manager = SimManager
     mp.Value = SimValue
     mp.Lock = SimLock
